@@ -626,7 +626,10 @@ func runReconf(seed uint64, n int, tier string, out string, replay string) {
 	distinct := hx.NewDistinct()
 	self, _ := os.Executable()
 	registerFakeStores()
-	finishListeners := removedServersStopListening(sum)
+	finishListeners := func() {}
+	if n >= 40 { // the listener scenario takes 12 s: only in runs of C16's size
+		finishListeners = removedServersStopListening(sum)
+	}
 	tmpdir, _ := os.MkdirTemp("", "pikeverif-reconf-")
 	defer os.RemoveAll(tmpdir)
 	for i := 0; i < n; i++ {
